@@ -260,8 +260,15 @@ class SSETransport(Transport):
                 self._connected.set()
 
     async def _process_sse_stream(self):
-        """Process the SSE event stream."""
+        """Process the SSE event stream.
+
+        Events are collected line by line and dispatched at the blank line that ends
+        them, as the SSE grammar has it: ``field:value`` with an optional single space
+        after the colon, lines starting with ``:`` are comments, several ``data`` lines
+        of one event are joined with a line feed.
+        """
         current_event = None
+        event_data: list[str] = []
         buffer = ""
 
         assert self._sse_response is not None
@@ -278,36 +285,48 @@ class SSETransport(Transport):
 
                 if not line:
                     # Empty line marks end of event
+                    if event_data:
+                        await self._dispatch_sse_event(
+                            current_event, "\n".join(event_data).strip()
+                        )
                     current_event = None
+                    event_data = []
+                    continue
+
+                if line.startswith(":"):
+                    # Comment (keep-alive ping)
                     continue
 
                 # Parse SSE format
-                if line.startswith("event: "):
-                    current_event = line[7:].strip()
+                field, _, value = line.partition(":")
+                if value.startswith(" "):
+                    value = value[1:]
+
+                if field == "event":
+                    current_event = value.strip()
                     logger.debug(f"SSE event type: {current_event}")
+                elif field == "data":
+                    event_data.append(value)
 
-                elif line.startswith("data: "):
-                    data = line[6:].strip()
-
-                    # Handle different event types
-                    if current_event == "endpoint":
-                        await self._handle_endpoint_event(data)
-                    elif current_event == "message":
-                        await self._handle_message_event(data)
-                    elif current_event == "keepalive":
-                        logger.debug("Received keepalive")
-                    else:
-                        # Handle data without explicit event type
-                        # Check if it's an endpoint announcement (contains /messages/ or /mcp)
-                        if not self._message_url and (
-                            "/messages/" in data or "/mcp" in data
-                        ):
-                            await self._handle_endpoint_event(data)
-                        # Check if it's JSON-RPC data
-                        elif data.startswith("{") and '"jsonrpc"' in data:
-                            await self._handle_message_event(data)
-                        else:
-                            logger.debug(f"Unknown data: {data[:100]}...")
+    async def _dispatch_sse_event(self, current_event: Optional[str], data: str) -> None:
+        """Handle one complete SSE event."""
+        # Handle different event types
+        if current_event == "endpoint":
+            await self._handle_endpoint_event(data)
+        elif current_event == "message":
+            await self._handle_message_event(data)
+        elif current_event == "keepalive":
+            logger.debug("Received keepalive")
+        else:
+            # Handle data without explicit event type
+            # Check if it's an endpoint announcement (contains /messages/ or /mcp)
+            if not self._message_url and ("/messages/" in data or "/mcp" in data):
+                await self._handle_endpoint_event(data)
+            # Check if it's JSON-RPC data
+            elif data.startswith("{") and '"jsonrpc"' in data:
+                await self._handle_message_event(data)
+            else:
+                logger.debug(f"Unknown data: {data[:100]}...")
 
     async def _handle_endpoint_event(self, data: str) -> None:
         """Handle the endpoint event from SSE."""
